@@ -1,5 +1,6 @@
 import MdsVerif.Model.Cache
 import MdsVerif.Spec.LruRef
+import MdsVerif.Proofs.CacheDefs
 /-!
 # Helper lemmas for C08 (`cache.Cache` with the LRU store)
 
@@ -24,6 +25,135 @@ assumed about `right`, `heapifyStart` or `popSiftsUp`: the class contains the pi
 structure CfgOK (cfg : Cfg) : Prop where
   parent_lt : ∀ i, 0 < i → cfg.parent i < i
   left_gt : ∀ i, i < cfg.left i
+
+/-! ## 0. the regenerated facts (`Gen.Cache`) in the form the proofs use
+
+The model `Model.Cache` calls the definitions of `Gen.Cache` (regenerated from cache.go / lru.go on every
+run).  The lemmas of this section restate every model function with the pinned expressions written out;
+everything below unfolds the model only through them.  A one-token change of one of these expressions in
+the Go source changes `Gen/Cache.lean` and the corresponding lemma here stops compiling. -/
+section facts
+open Gen.Cache
+theorem putRefuses_iff (v l : Int) : putRefuses v l = true ↔ v > l := by
+  unfold putRefuses; rw [decide_eq_true_iff]
+theorem putEvicts_iff (n l : Int) : putEvicts n l = true ↔ n > l := by
+  unfold putEvicts; rw [decide_eq_true_iff]
+theorem clearContinues_iff (n : Int) : clearContinues n = true ↔ n > 0 := by
+  unfold clearContinues; rw [decide_eq_true_iff]
+theorem clearInconsistent_eq (s n : Int) : clearInconsistent s n = (s != 0 || n != 0) := by
+  unfold clearInconsistent
+  by_cases h1 : s = 0 <;> by_cases h2 : n = 0 <;> simp [h1, h2]
+theorem replaceSize_eq (s o : Int) : replaceSize s o = s - o := rfl
+theorem replaceCount_eq (n : Int) : replaceCount n = n - 1 := rfl
+theorem putNewSize_eq (s v : Int) : putNewSize s v = s + v := rfl
+theorem evictCount_eq (n : Int) : evictCount n = n - 1 := rfl
+theorem evictNewSize_eq (n e : Int) : evictNewSize n e = n - e := rfl
+theorem putSize_eq (s n : Int) : putSize s n = n := rfl
+theorem putCount_eq (n : Int) : putCount n = n + 1 := rfl
+theorem removeSize_eq (s o : Int) : removeSize s o = s - o := rfl
+theorem removeCount_eq (n : Int) : removeCount n = n - 1 := rfl
+theorem clearSize_eq (s e : Int) : clearSize s e = s - e := rfl
+theorem clearCount_eq (n : Int) : clearCount n = n - 1 := rfl
+theorem accessClock_eq (c : Nat) : accessClock c = c + 1 := rfl
+theorem accessStamp_eq (c : Nat) : accessStamp c = c := rfl
+theorem storeClock_eq (c : Nat) : storeClock c = c + 1 := rfl
+theorem storeStamp_eq (c : Nat) : storeStamp c = c := rfl
+theorem prioLess_eq (a b : Nat) : prioLess a b = decide (a < b) := rfl
+end facts
+
+/-- `comparePrio`: entries are ordered by `lastAccess` -/
+theorem ltEntry_def (a b : Entry) : ltEntry a b = decide (a.lastAccess < b.lastAccess) := rfl
+
+theorem Lru.access_def (cfg : Cfg) (s : Lru) (key : Nat) :
+    s.access cfg key =
+      match s.present.get key with
+      | none => (s, none)
+      | some pos =>
+        let clock := s.clock + 1
+        let (h1, out) := heapRemove cfg s.h pos
+        let s1 := ({ s with h := h1, clock := clock } : Lru).sync
+        let out := { out with lastAccess := clock }
+        let (h2, _) := add cfg ltEntry s1.h out
+        (({ s1 with h := h2 } : Lru).sync, some out.value) := rfl
+
+theorem Lru.store_def (cfg : Cfg) (s : Lru) (key val : Nat) :
+    s.store cfg key val =
+      match s.present.get key with
+      | some _ => .panic "lru store: unexpected key"
+      | none =>
+        let clock := s.clock + 1
+        let (h, pos) := add cfg ltEntry s.h { lastAccess := clock, key := key, value := val }
+        let s1 := ({ s with h := h, clock := clock } : Lru).sync
+        .ok { s1 with present := s1.present.set key pos } := rfl
+
+theorem evictLoop_zero (cfg : Cfg) (sizeOf : Nat → Int) (c : Cache) (newSize : Int) :
+    evictLoop cfg sizeOf 0 c newSize = .ok (c, newSize) := rfl
+
+theorem evictLoop_succ (cfg : Cfg) (sizeOf : Nat → Int) (fuel : Nat) (c : Cache) (newSize : Int) :
+    evictLoop cfg sizeOf (fuel + 1) c newSize =
+      if newSize > c.limit then
+        match c.store.evict cfg with
+        | .panic m => .panic m
+        | .ok (st, ek, ev) =>
+          evictLoop cfg sizeOf fuel
+            { c with store := st, evicted := (ek, ev) :: c.evicted, count := c.count - 1 } (newSize - sizeOf ev)
+      else .ok (c, newSize) := by
+  rw [evictLoop]
+  simp only [putEvicts_iff, evictCount_eq, evictNewSize_eq]
+  rfl
+
+theorem put_def (cfg : Cfg) (sizeOf : Nat → Int) (c : Cache) (key val : Nat) :
+    put cfg sizeOf c key val =
+      (let valSize := sizeOf val
+       if valSize > c.limit then .ok (c, false)
+       else
+         let c1 := match c.store.check key with
+           | some old =>
+             { c with store := c.store.remove cfg key, evicted := (key, old) :: c.evicted,
+                      size := c.size - sizeOf old, count := c.count - 1 }
+           | none => c
+         match evictLoop cfg sizeOf (c1.store.h.len + 1) c1 (c1.size + valSize) with
+         | .panic m => .panic m
+         | .ok (c2, newSize) =>
+           match c2.store.store cfg key val with
+           | .panic m => .panic m
+           | .ok st => .ok ({ c2 with store := st, size := newSize, count := c2.count + 1 }, true)) := by
+  unfold put
+  simp only [putRefuses_iff, replaceSize_eq, replaceCount_eq, putNewSize_eq, putSize_eq, putCount_eq]
+  rfl
+
+theorem remove_def (cfg : Cfg) (sizeOf : Nat → Int) (c : Cache) (key : Nat) :
+    remove cfg sizeOf c key =
+      match c.store.check key with
+      | some old =>
+        ({ c with store := c.store.remove cfg key, evicted := (key, old) :: c.evicted,
+                  size := c.size - sizeOf old, count := c.count - 1 }, true)
+      | none => (c, false) := rfl
+
+theorem clearLoop_zero (cfg : Cfg) (sizeOf : Nat → Int) (c : Cache) :
+    clearLoop cfg sizeOf 0 c = .ok c := rfl
+
+theorem clearLoop_succ (cfg : Cfg) (sizeOf : Nat → Int) (fuel : Nat) (c : Cache) :
+    clearLoop cfg sizeOf (fuel + 1) c =
+      if c.count > 0 then
+        match c.store.evict cfg with
+        | .panic m => .panic m
+        | .ok (st, ek, ev) =>
+          clearLoop cfg sizeOf fuel
+            { c with store := st, evicted := (ek, ev) :: c.evicted, size := c.size - sizeOf ev, count := c.count - 1 }
+      else .ok c := by
+  rw [clearLoop]
+  simp only [clearContinues_iff, clearSize_eq, clearCount_eq]
+  rfl
+
+theorem clear_def (cfg : Cfg) (sizeOf : Nat → Int) (c : Cache) :
+    clear cfg sizeOf c =
+      match clearLoop cfg sizeOf (c.count.toNat + 1) c with
+      | .panic m => .panic m
+      | .ok c' => if c'.size != 0 || c'.count != 0 then .panic "cache: after clear" else .ok c' := by
+  unfold MdsVerif.Model.Cache.clear
+  simp only [clearInconsistent_eq]
+  rfl
 
 /-! ## 1. the index -/
 
@@ -644,7 +774,7 @@ theorem store_spec {cfg : Cfg} (ok : CfgOK cfg) {s : Lru} (inv : LruInv s) {k : 
   let s1 := ({ s0 with h := (add cfg ltEntry s0.h ne).1 } : Lru).sync
   refine ⟨{ s1 with present := s1.present.set k (add cfg ltEntry s0.h ne).2 }, ?_,
     ⟨rfl, ?_, ?_, ts.1, ts.2⟩, perm, rfl⟩
-  · simp only [Lru.store, inv.bwd k hk]
+  · simp only [Lru.store_def, inv.bwd k hk]
     rfl
   · intro p e hp
     show (Index.set _ k _).get e.key = some p
@@ -677,7 +807,7 @@ theorem access_spec {cfg : Cfg} (ok : CfgOK cfg) {s : Lru} (inv : LruInv s) {e :
   have ha : s.access cfg e.key =
       (({ s1 with h := (add cfg ltEntry s1.h ne).1 } : Lru).sync, some e.value) := by
     have : ¬ p ≥ s.h.len := by simp [H.len]; exact hlt
-    simp only [Lru.access, hg, heapRemove, this, if_false]
+    simp only [Lru.access_def, hg, heapRemove, this, if_false]
     rw [hout]
   rw [ha]
   have le1 : ∀ e' ∈ s1.h.data, e'.lastAccess ≤ s.clock := fun e' he' =>
@@ -687,7 +817,7 @@ theorem access_spec {cfg : Cfg} (ok : CfgOK cfg) {s : Lru} (inv : LruInv s) {e :
 
 theorem access_absent {cfg : Cfg} {s : Lru} (inv : LruInv s) {k : Nat} (hk : k ∉ s.h.data.map (·.key)) :
     s.access cfg k = (s, none) := by
-  simp [Lru.access, inv.bwd k hk]
+  simp [Lru.access_def, inv.bwd k hk]
 
 /-! ## 4. the cache -/
 
@@ -768,13 +898,13 @@ theorem remove_spec_present {cfg : Cfg} (ok : CfgOK cfg) {sizeOf : Nat → Int} 
   have hr : remove cfg sizeOf c e.key =
       ({ c with store := c.store.remove cfg e.key, evicted := (e.key, e.value) :: c.evicted,
                 size := c.size - sizeOf e.value, count := c.count - 1 }, true) := by
-    simp only [remove, hc]
+    simp only [remove_def, hc]
   rw [hr]
   exact ⟨rfl, this.1, this.2, perm, rfl⟩
 
 theorem remove_spec_absent {cfg : Cfg} {sizeOf : Nat → Int} {c : Cache} (inv : Inv sizeOf c) {k : Nat}
     (hk : k ∉ c.store.h.data.map (·.key)) : remove cfg sizeOf c k = (c, false) := by
-  simp only [remove, check_of_not_mem inv.lru hk]
+  simp only [remove_def, check_of_not_mem inv.lru hk]
 
 theorem get_spec_present {cfg : Cfg} (ok : CfgOK cfg) {sizeOf : Nat → Int} {c : Cache} (inv : Inv sizeOf c)
     {e : Entry} (he : e ∈ c.store.h.data) :
@@ -835,20 +965,12 @@ theorem evictLoop_spec {cfg : Cfg} (ok : CfgOK cfg) {sizeOf : Nat → Int} (valS
         ih c1 (n - sizeOf e.value) inv1 (by show s'.h.data.length < fuel; omega)
           (by show _ = sizeSum sizeOf s'.h.data + valSize; omega) hle
       refine ⟨c', n', ?_, inv', hn', hle', hlim, hc1.trans hcons, ?_⟩
-      · simp only [evictLoop, hgt, if_true, hev]; exact hl
+      · simp only [evictLoop_succ, hgt, if_true, hev]; exact hl
       · intro k hk
         apply hkeys
         intro hm
         exact hk (((perm.map (·.key)).mem_iff).1 (List.mem_cons_of_mem _ hm))
-    · refine ⟨c, n, by simp only [evictLoop, hgt, if_false], inv, hn, by omega, rfl, .refl c, fun _ h => h⟩
-
-/-- the state of `Put` after an existing entry for the key has been removed -/
-def putReplace (cfg : Cfg) (sizeOf : Nat → Int) (c : Cache) (key : Nat) : Cache :=
-  match c.store.check key with
-  | some old =>
-    { c with store := c.store.remove cfg key, evicted := (key, old) :: c.evicted,
-             size := c.size - sizeOf old, count := c.count - 1 }
-  | none => c
+    · refine ⟨c, n, by simp only [evictLoop_succ, hgt, if_false], inv, hn, by omega, rfl, .refl c, fun _ h => h⟩
 
 theorem putReplace_spec {cfg : Cfg} (ok : CfgOK cfg) {sizeOf : Nat → Int} (hs : ∀ v, 0 ≤ sizeOf v)
     {c : Cache} (inv : Inv sizeOf c) (k : Nat) :
@@ -880,12 +1002,12 @@ theorem put_eq (cfg : Cfg) (sizeOf : Nat → Int) (c : Cache) (key val : Nat) (h
         match c2.store.store cfg key val with
         | .panic m => .panic m
         | .ok st => .ok ({ c2 with store := st, size := newSize, count := c2.count + 1 }, true)) := by
-  simp only [put, h, if_false, putReplace]
+  simp only [put_def, h, if_false, putReplace]
   rfl
 
 theorem put_refused (cfg : Cfg) (sizeOf : Nat → Int) (c : Cache) (key val : Nat) (h : sizeOf val > c.limit) :
     put cfg sizeOf c key val = .ok (c, false) := by
-  simp only [put, h, if_true]
+  simp only [put_def, h, if_true]
 
 theorem put_spec {cfg : Cfg} (ok : CfgOK cfg) {sizeOf : Nat → Int} (hs : ∀ v, 0 ≤ sizeOf v)
     {c : Cache} (inv : Inv sizeOf c) (k v : Nat) (h : ¬ sizeOf v > c.limit) :
@@ -944,13 +1066,13 @@ theorem evictLoop_needed (cfg : Cfg) (sizeOf : Nat → Int) :
   induction fuel with
   | zero =>
     intro c n c' n' h
-    simp only [evictLoop] at h
+    simp only [evictLoop_zero] at h
     cases h
     exact ⟨[], rfl, by simp [sizeKV], rfl, fun j hj => by simp at hj⟩
   | succ fuel ih =>
     intro c n c' n' h
     by_cases hgt : n > c.limit
-    · simp only [evictLoop, hgt, if_true] at h
+    · simp only [evictLoop_succ, hgt, if_true] at h
       cases hev : c.store.evict cfg with
       | panic m => rw [hev] at h; cases h
       | ok r =>
@@ -971,7 +1093,7 @@ theorem evictLoop_needed (cfg : Cfg) (sizeOf : Nat → Int) :
             have e : n - sizeOf ev - sizeKV sizeOf (gone.take j) = n - (sizeOf ev + sizeKV sizeOf (gone.take j)) := by
               omega
             rw [← e]; exact this
-    · simp only [evictLoop, hgt, if_false] at h
+    · simp only [evictLoop_succ, hgt, if_false] at h
       cases h
       exact ⟨[], rfl, by simp [sizeKV], rfl, fun j hj => by simp at hj⟩
 
@@ -986,10 +1108,12 @@ theorem putReplace_acct (cfg : Cfg) (sizeOf : Nat → Int) (c : Cache) (k : Nat)
     (putReplace cfg sizeOf c k).size = c.size - sizeKV sizeOf (replaced c k) ∧
     (putReplace cfg sizeOf c k).limit = c.limit := by
   unfold putReplace replaced
-  split
-  · refine ⟨rfl, ?_, rfl⟩
+  cases c.store.check k with
+  | some old =>
+    refine ⟨rfl, ?_, rfl⟩
     simp only [sizeKV]; omega
-  · refine ⟨rfl, ?_, rfl⟩
+  | none =>
+    refine ⟨rfl, ?_, rfl⟩
     simp only [sizeKV]; omega
 
 /-- **`Put` evicts exactly as long as needed.**  For a `Put k v` that is not refused, with `c1` the state
@@ -1038,8 +1162,8 @@ theorem clearLoop_spec {cfg : Cfg} (ok : CfgOK cfg) {sizeOf : Nat → Int} (hs :
       obtain ⟨inv1, cons1⟩ := inv_drop hs inv hst perm
       obtain ⟨c', hl, inv', hd, cons', hlim⟩ := ih _ inv1 (by show s'.h.data.length < fuel; omega)
       refine ⟨c', ?_, inv', hd, cons1.trans cons', hlim⟩
-      simp only [clearLoop, hgt, if_true, hev]; exact hl
-    · refine ⟨c, by simp only [clearLoop, hgt, if_false], inv, ?_, .refl c, rfl⟩
+      simp only [clearLoop_succ, hgt, if_true, hev]; exact hl
+    · refine ⟨c, by simp only [clearLoop_succ, hgt, if_false], inv, ?_, .refl c, rfl⟩
       have := inv.count
       apply List.length_eq_zero_iff.1
       omega
@@ -1054,7 +1178,7 @@ theorem clear_spec {cfg : Cfg} (ok : CfgOK cfg) {sizeOf : Nat → Int} (hs : ∀
   refine ⟨c', ?_, inv', hd, cons, hlim⟩
   have h1 : c'.size = 0 := by rw [inv'.size, hd]; rfl
   have h2 : c'.count = 0 := by rw [inv'.count, hd]; rfl
-  simp [MdsVerif.Model.Cache.clear, hl, h1, h2]
+  simp [clear_def, hl, h1, h2]
 
 /-! ### steps and histories -/
 
@@ -1143,9 +1267,6 @@ open MdsVerif.Spec
 
 def Sorted (l : List Entry) : Prop := l.Pairwise (fun a b => a.lastAccess < b.lastAccess)
 
-/-- the root of the heap array carries a minimal timestamp -/
-def minOK (h : H Entry) : Bool := h.data.all (fun e => (h.get 0).lastAccess ≤ e.lastAccess)
-
 theorem find_kv_of_mem {l : List Entry} (nd : (l.map (·.key)).Nodup) {e : Entry} (he : e ∈ l) :
     (l.map kv).find? (·.1 == e.key) = some (kv e) := by
   induction l with
@@ -1224,34 +1345,6 @@ theorem sorted_filter {l : List Entry} (hs : Sorted l) (p : Entry → Bool) : So
 def Abs (c : Cache) (r : LruRef.R) : Prop :=
   ∃ l : List Entry, l.Perm c.store.h.data ∧ Sorted l ∧ r.items = l.map kv ∧ r.limit = c.limit
 
-/-- every `Evict` executed by this run of `Put`'s eviction loop finds a minimal timestamp at the root
-(same recursion as `evictLoop`) -/
-def evictLoopMin (cfg : Cfg) (sizeOf : Nat → Int) : Nat → Cache → Int → Bool
-  | 0, _, _ => true
-  | fuel + 1, c, newSize =>
-    if newSize > c.limit then
-      minOK c.store.h &&
-        match c.store.evict cfg with
-        | .panic _ => true
-        | .ok (st, ek, ev) =>
-          evictLoopMin cfg sizeOf fuel
-            { c with store := st, evicted := (ek, ev) :: c.evicted, count := c.count - 1 } (newSize - sizeOf ev)
-    else true
-
-/-- every `Evict` that `Put` executes in this step picks a least-recently-used entry.  (`Clear` also
-evicts, but the order of its callbacks is not part of the property.) -/
-def stepMin (cfg : Cfg) (sizeOf : Nat → Int) (c : Cache) : Op → Bool
-  | .put k v =>
-    if sizeOf v > c.limit then true
-    else
-      evictLoopMin cfg sizeOf ((putReplace cfg sizeOf c k).store.h.len + 1) (putReplace cfg sizeOf c k)
-        ((putReplace cfg sizeOf c k).size + sizeOf v)
-  | _ => true
-
-def runMin (cfg : Cfg) (sizeOf : Nat → Int) (c : Cache) : List Op → Bool
-  | [] => true
-  | op :: ops => stepMin cfg sizeOf c op && runMin cfg sizeOf (step cfg sizeOf c op).1 ops
-
 theorem makeRoom_stop (sizeOf : Nat → Int) (limit need : Int) (l : List Entry)
     (h : ¬ sizeSum sizeOf l + need > limit) :
     LruRef.makeRoom sizeOf limit need (l.map kv) = (l.map kv, []) := by
@@ -1290,7 +1383,7 @@ theorem evictLoop_refines {cfg : Cfg} (ok : CfgOK cfg) {sizeOf : Nat → Int} (v
         intro h; rw [h] at hn; simp only [sizeSum] at hn; omega
       obtain ⟨s', e, hev, hp0, hst, perm, _⟩ := evict_spec ok inv.lru hne
       simp only [evictLoopMin, hgt, if_true, hev, Bool.and_eq_true] at hmin
-      simp only [evictLoop, hgt, if_true, hev] at hloop
+      simp only [evictLoop_succ, hgt, if_true, hev] at hloop
       have hsz := sizeSum_perm sizeOf perm
       have hlen := perm.length_eq
       simp only [sizeSum, List.length_cons] at hsz hlen
@@ -1324,7 +1417,7 @@ theorem evictLoop_refines {cfg : Cfg} (ok : CfgOK cfg) {sizeOf : Nat → Int} (v
           have : LruRef.makeRoom sizeOf c.limit valSize (rest.map kv) = (l'.map kv, gone) := hmr
           rw [this]
         · rw [hev']; simp [c1, kv]
-    · simp only [evictLoop, hgt, if_false] at hloop
+    · simp only [evictLoop_succ, hgt, if_false] at hloop
       have h1 : c' = c := by cases hloop; rfl
       subst h1
       exact ⟨l, [], hl, hsorted, makeRoom_stop sizeOf _ valSize l (by rw [hszl]; omega), rfl⟩
@@ -1460,7 +1553,7 @@ theorem remove_refines {cfg : Cfg} (ok : CfgOK cfg) {sizeOf : Nat → Int}
     have hr : remove cfg sizeOf c e.key =
         ({ c with store := c.store.remove cfg e.key, evicted := (e.key, e.value) :: c.evicted,
                   size := c.size - sizeOf e.value, count := c.count - 1 }, true) := by
-      simp only [remove, hc]
+      simp only [remove_def, hc]
     simp only [step, hr, LruRef.step, hitems, hfind, filter_kv]
     refine ⟨rfl, ⟨l.filter (·.key != e.key), ?_, sorted_filter hsorted _, rfl, hlim⟩,
       [kv e], [kv e], rfl, rfl, rfl⟩
@@ -1609,7 +1702,7 @@ theorem evict_h {cfg : Cfg} {s s' : Lru} {k v : Nat} (h : s.evict cfg = .ok (s',
 
 theorem store_h {cfg : Cfg} {s s' : Lru} {k v : Nat} (h : s.store cfg k v = .ok s') :
     s'.h = { (add cfg ltEntry s.h { lastAccess := s.clock + 1, key := k, value := v }).1 with log := [] } := by
-  unfold Lru.store at h
+  rw [Lru.store_def] at h
   split at h
   · cases h
   · cases h; rfl
@@ -1619,7 +1712,7 @@ theorem access_h {cfg : Cfg} {s : Lru} {k p : Nat} (hg : s.present.get k = some 
       { (add cfg ltEntry { (pop cfg ltEntry s.h p).1 with log := [] }
           { (pop cfg ltEntry s.h p).2 with lastAccess := s.clock + 1 }).1 with log := [] } := by
   have : ¬ p ≥ s.h.len := by simp [H.len]; exact hp
-  simp only [Lru.access, hg, heapRemove, this, if_false]
+  simp only [Lru.access_def, hg, heapRemove, this, if_false]
   rfl
 
 section heapinv
@@ -1676,7 +1769,7 @@ theorem evictLoop_P (ok : CfgOK cfg) (hi : HeapInv0 cfg P) {sizeOf : Nat → Int
   | zero =>
     intro c n _ hP
     refine ⟨rfl, fun c' n' h => ?_⟩
-    simp only [evictLoop] at h
+    simp only [evictLoop_zero] at h
     cases h; exact hP
   | succ fuel ih =>
     intro c n inv hP
@@ -1687,7 +1780,7 @@ theorem evictLoop_P (ok : CfgOK cfg) (hi : HeapInv0 cfg P) {sizeOf : Nat → Int
         obtain ⟨m, hev⟩ := hev
         refine ⟨?_, fun c' n' h => ?_⟩
         · simp only [evictLoopMin, hgt, if_true, hev, hi.min _ hP, Bool.and_self]
-        · simp only [evictLoop, hgt, if_true, hev] at h
+        · simp only [evictLoop_succ, hgt, if_true, hev] at h
           cases h
       · obtain ⟨s', e, hev, _, hst, perm, _⟩ := evict_spec ok inv.lru hne
         have hlen := perm.length_eq
@@ -1700,10 +1793,10 @@ theorem evictLoop_P (ok : CfgOK cfg) (hi : HeapInv0 cfg P) {sizeOf : Nat → Int
         refine ⟨?_, fun c' n' h => ?_⟩
         · simp only [evictLoopMin, hgt, if_true, hev, hi.min _ hP, Bool.true_and]
           exact h1
-        · simp only [evictLoop, hgt, if_true, hev] at h
+        · simp only [evictLoop_succ, hgt, if_true, hev] at h
           exact h2 c' n' h
     · refine ⟨by simp only [evictLoopMin, hgt, if_false], fun c' n' h => ?_⟩
-      simp only [evictLoop, hgt, if_false] at h
+      simp only [evictLoop_succ, hgt, if_false] at h
       cases h; exact hP
 
 theorem clearLoop_P (ok : CfgOK cfg) (hi : HeapInv0 cfg P) {sizeOf : Nat → Int} (hs : ∀ v, 0 ≤ sizeOf v) :
@@ -1711,7 +1804,7 @@ theorem clearLoop_P (ok : CfgOK cfg) (hi : HeapInv0 cfg P) {sizeOf : Nat → Int
       ∀ c', clearLoop cfg sizeOf fuel c = .ok c' → P c'.store.h := by
   intro fuel
   induction fuel with
-  | zero => intro c _ hP c' h; simp only [clearLoop] at h; cases h; exact hP
+  | zero => intro c _ hP c' h; simp only [clearLoop_zero] at h; cases h; exact hP
   | succ fuel ih =>
     intro c inv hP c' h
     by_cases hgt : c.count > 0
@@ -1719,9 +1812,9 @@ theorem clearLoop_P (ok : CfgOK cfg) (hi : HeapInv0 cfg P) {sizeOf : Nat → Int
         intro h; have := inv.count; rw [h] at this; simp at this; omega
       obtain ⟨s', e, hev, _, hst, perm, _⟩ := evict_spec ok inv.lru hne
       obtain ⟨inv1, _⟩ := inv_drop hs inv hst perm
-      simp only [clearLoop, hgt, if_true, hev] at h
+      simp only [clearLoop_succ, hgt, if_true, hev] at h
       exact ih _ inv1 (evict_P hi hP hne hev) c' h
-    · simp only [clearLoop, hgt, if_false] at h
+    · simp only [clearLoop_succ, hgt, if_false] at h
       cases h; exact hP
 
 theorem step_P {B : Nat} (ok : CfgOK cfg) (hi : HeapInvB cfg P B) {sizeOf : Nat → Int} (hs : ∀ v, 0 ≤ sizeOf v)
@@ -1757,7 +1850,7 @@ theorem step_P {B : Nat} (ok : CfgOK cfg) (hi : HeapInvB cfg P B) {sizeOf : Nat 
   | remove k =>
     refine ⟨rfl, ?_⟩
     show P (remove cfg sizeOf c k).1.store.h
-    unfold remove
+    rw [remove_def]
     split
     · exact remove_P hi inv.lru hP hB k
     · exact hP
@@ -1766,7 +1859,7 @@ theorem step_P {B : Nat} (ok : CfgOK cfg) (hi : HeapInvB cfg P B) {sizeOf : Nat 
     obtain ⟨c', hc, _, _, _, _⟩ := clear_spec (cfg := cfg) ok hs inv
     simp only [step, hc]
     have hc' := hc
-    unfold MdsVerif.Model.Cache.clear at hc'
+    rw [clear_def] at hc'
     split at hc'
     · cases hc'
     · rename_i c'' hl
@@ -1886,7 +1979,7 @@ theorem step_P0 (ok : CfgOK cfg) (hi : HeapInv0 cfg P) {sizeOf : Nat → Int} (h
     obtain ⟨c', hc, _, _, _, _⟩ := clear_spec (cfg := cfg) ok hs inv
     simp only [step, hc]
     have hc' := hc
-    unfold MdsVerif.Model.Cache.clear at hc'
+    rw [clear_def] at hc'
     split at hc'
     · cases hc'
     · rename_i c'' hl
